@@ -53,7 +53,7 @@ var allLeaves = []ref.Kind{ref.KInt8, ref.KUint8, ref.KInt16, ref.KUint16, ref.K
 
 func typeOpts() gen.TypeOpts {
 	return gen.TypeOpts{Depth: 4, Width: 4, Leaves: allLeaves, MapKeys: gen.AllScalars, Structs: true, Tuples: true,
-		Maps: true, Lists: true, Template: true, ZeroMem: true, CompositeKeys: true, Wide: true}
+		Maps: true, Lists: true, Template: true, ZeroMem: true, CompositeKeys: true, Wide: true, WideOneIn: 1000}
 }
 
 var siblingKinds = []ref.Kind{ref.KInt8, ref.KUint16, ref.KInt32, ref.KUint64, ref.KFloat32, ref.KBool, ref.KString}
